@@ -7,6 +7,7 @@
 #############################################################################
 import datetime
 import logging
+import urllib.parse
 
 from dashlive.utils.date_time import from_isodatetime, to_iso_datetime
 from .dash_option import DashOption
@@ -58,7 +59,8 @@ def ast_to_string(value: datetime.datetime | str | None) -> str:
         return value
     if value is None:
         return ''
-    return to_iso_datetime(value)
+    # a positive UTC offset contains a '+', which must be escaped in a URL
+    return urllib.parse.quote(to_iso_datetime(value), safe=':')
 
 
 AvailabilityStartTime = DashOption(
